@@ -13,5 +13,5 @@ def run(tier='quick', seed=0):
     return harness.aggregate(
         results,
         rule='one evaluation = one clause on one (graph, evaluator mode, architecture, metric); non-trivial = distinct such case',
-        bound='metric nodes of every direction (None,-1,1) x reference (None,1.5) x type (None,NONE,OBJECTIVE,CONSTRAINT) under a permanent and a conditional node (12 graphs of 4 metrics) x evaluators returning complete / partial / NaN results x all architectures',
+        bound='metric nodes of every direction (None,-1,1) x reference (None,1.5) x type (None,NONE,OBJECTIVE,CONSTRAINT) under a permanent and a conditional node (12 graphs of 4 metrics) x evaluators returning complete / partial / NaN / all-zero results x all architectures',
         assumptions=['A17-perm is exercised here: every objective node must be present in every decoded architecture'])
